@@ -11,7 +11,7 @@
 (*              config / get_sync_map                                       *)
 (*  3 "recon"   neuropixel.NP2Reconstructor.process                         *)
 (*  4 "reader"  spikeglx.Reader open / close / __enter__ / __exit__ / read  *)
-(*              / is_open, module function spikeglx.read                    *)
+(*              / is_open / read_sync, module function spikeglx.read        *)
 (*                                                                         *)
 (* There is no properties.jsonl entry for X01: the PROPERTY LAYER below is  *)
 (* written from the docstrings and comments of the code.  Every clause      *)
@@ -27,7 +27,15 @@
 (* clause that the *unchanged* code contradicts is listed as a DEVIATION    *)
 (* class Dev* here (the invariant checked is Clause \/ Dev), confirmed on   *)
 (* the real code by the harness and reported as an OBSERVATION, never as a  *)
-(* failure.                                                                *)
+(* failure.  Vacuity: spec/mc/MC_Session.tla has TLC establish that every   *)
+(* branch and every deviation class occurs in the boxes (facts exported     *)
+(* with the cases for glob, conjuncts of the postcondition for the other    *)
+(* parts), and the small parts run with -coverage 1 (every action taken).   *)
+(* Modelling choices: the result of glob_ephys_files is a *set* of entries  *)
+(* (directory order is arbitrary; two identical {nidq: None} entries of     *)
+(* one folder collapse - the trace spec and the replay count them);         *)
+(* `next(glob)` is a free choice among the matching files; file names are   *)
+(* stem.stream.ext and fnmatch is transcribed by ExtTable / SufMatch.       *)
 (*                                                                         *)
 (* ---------------- property layer: clauses and their sources -------------- *)
 (* glob_ephys_files (docstring = D, comments in the body = C)               *)
